@@ -112,7 +112,7 @@ pub open spec fn from_answer<F: Fn(&Record) -> bool>(zone: Seq<char>, answers: S
 //@|         // neither SOA nor NS and was accepted by the caller's filter — filed with its type and data unchanged
 //@|         && forall|i: int| 0 <= i < out.added.len() ==> from_answer(zone.s, signed_packet.answers, filter, #[trigger] out.added[i]),
 //@rwx A2 1
-//@- for mut record in answers\.into_iter\(\) \{
+//@- for mut record in answers(?:\.into_iter\(\))? \{
 //@+ let ghost a0 = answers@; for mut record in it: answers {
 //@loop 1
 //@| invariant
